@@ -1,11 +1,11 @@
-\* thorough: <= 3 tracks x <= 3 events, ticks <<0,0,1>> and <<1,1,1>>
+\* quick: 2 tracks x <= 3 events, ticks <<0,0,1>>, channel message / meta / sysex (optional sends)
 \* the trace acceptor (Player!Via) as next-state relation: accepts only stable merges
 CONSTANTS
-  NT = 3
+  NT = 2
   NE = 3
   MaxNow = 1
   Kinds <- KindsNoB
-  TimePats <- Pats3q
+  TimePats <- Pats3one
   Sels <- SelAll
   PortMaps <- PMmixed
 INIT Init
